@@ -159,21 +159,13 @@ type cmapID struct {
 	encoding tables.EncodingID
 }
 
-func (c cmapID) key() uint32 { return uint32(c.platform)<<16 | uint32(c.encoding) }
-
-// findSubtable returns the cmap index for the given platform and encoding, or -1 if not found.
+// findSubtable returns the index of the first cmap with the given platform and encoding, or -1 if not found.
 func findSubtable(id cmapID, cmaps []cmapID) int {
-	key := id.key()
-	// binary search
-	for i, j := 0, len(cmaps); i < j; {
-		h := i + (j-i)/2
-		entryKey := cmaps[h].key()
-		if key < entryKey {
-			j = h
-		} else if entryKey < key {
-			i = h + 1
-		} else {
-			return h
+	// the encoding records of a (malformed) font may not be sorted : a font only has
+	// a few of them, use a linear search
+	for i, entry := range cmaps {
+		if entry == id {
+			return i
 		}
 	}
 	return -1
